@@ -7,5 +7,8 @@ INVARIANT Feb1900
 INVARIANT Mar1900
 INVARIANT WeekdayStep
 INVARIANT WeekdayRange
+INVARIANT ClosedForm
+INVARIANT EDateBack
+INVARIANT WeekRange
 INVARIANT Obl
 CHECK_DEADLOCK FALSE
